@@ -31,6 +31,7 @@ class C08(SchedCheck):
                    "one virtual process; hwloc-derived buffer hierarchy is the one of the machine the check runs on",
                    "rand() + distance does not overflow int (the case's numbers are below 2^30)")
 
+    FLUSH_STALE_CASES = True     # directed cases of finding flush-stale-ring (notes/findings/C08-flush-private-stale-ring.md)
     STREAMS_QUICK = (1, 2, 3, 4, 8)
     STREAMS_THOROUGH = (1, 2, 3, 4, 5, 8, 16)
 
@@ -53,7 +54,7 @@ class C08(SchedCheck):
         # flush_private of a task retained from a ring of three (finding flush-stale-ring); last in their groups.
         # (ap ip rnd spq hang and ltq crashes on the same input: not run every time, see search_cases)
         for mod in ("gd", "lfq", "ll", "pbq"):
-            if not ONLY or mod in ONLY:
+            if self.FLUSH_STALE_CASES and (not ONLY or mod in ONLY):
                 out.append("%s 2 | V 1 0 0:5:0:0:7 1:3:0:0:3 2:4:0:0:5 | F 1 | D" % mod)
         return out
 
@@ -61,8 +62,8 @@ class C08(SchedCheck):
         r = self.rng.fork()
         out = []
         for mod in (ONLY or MODULES):
-            for n in (1, 2, 4, 8):
-                for _ in range(6):
+            for n in (2, 5):
+                for _ in range(8):
                     out.append(self.gen_history(r, mod, n, 40, vp_ops=True, maxring=32, dist_hi=5, big=True))
         for mod in (ONLY or MODULES):
             out.append("%s 2 | V 1 0 0:5:0:0:7 1:3:0:0:3 2:4:0:0:5 | F 1 | D" % mod)
